@@ -1,4 +1,5 @@
 """Exact numeric semantics (Fractions) and the C09 exactness predicate."""
+from decimal import Decimal
 from fractions import Fraction
 import math
 
@@ -6,6 +7,9 @@ TWO53 = 2 ** 53
 
 
 def is_num(x):
+    # (decimal.Decimal is how json.loads(parse_float=Decimal) hands numbers over; it is a JSON number like the others)
+    if isinstance(x, Decimal):
+        return x.is_finite()
     return isinstance(x, (int, float)) and not isinstance(x, bool)
 
 
